@@ -138,6 +138,18 @@ def c04_2(ctx):
             inner = a.value.args[0]
             if isinstance(inner, ast.Call) and call_name(inner) == "read" and inner.args and isinstance(inner.args[0], ast.Constant):
                 got[inner.args[0].value] = got.get(inner.args[0].value, ISet.empty()).union(s)
+            elif isinstance(inner, ast.Call) and call_name(inner) == "read" and inner.args:
+                # table-driven width: `width = {76: 1, 77: 2, 78: 4}[byte]`
+                wex = expand(fn, n.id, inner.args[0], stop=(var,))
+                tbl = Folder(ctx.repo, mod.name).fold(wex.value) if isinstance(wex, ast.Subscript) and isinstance(wex.slice, ast.Name) and wex.slice.id == var else None
+                if isinstance(tbl, dict) and all(isinstance(k, int) and isinstance(w_, int) for k, w_ in tbl.items()):
+                    for k, w_ in tbl.items():
+                        if s.contains(k):
+                            got[w_] = got.get(w_, ISet.empty()).union(ISet.point(k))
+                    if not s.issubset(ISet.of(list(tbl.keys()))):
+                        raise AnalysisError("Script.parse: length width table %s is indexed with bytes %s outside its keys" % (tbl, s))
+                else:
+                    raise AnalysisError("Script.parse: width of the length field `%s` not recognised" % ast.unparse(inner.args[0]))
         if isinstance(a, ast.Expr) and isinstance(a.value, ast.Call) and call_name(a.value) == "append" and a.value.args:
             arg = a.value.args[0]
             ex = expand(fn, n.id, arg, stop=(var,))
